@@ -220,6 +220,9 @@ def edits(model):
                 split = rels[:ri] + ((a, b, kids[:-1]), (a, b, kids[-1:])) + rels[ri + 1:]
                 out.append(('split-relation', (sh._replace_feature(model[0], list(path), lambda g, split=split: (g[0], split, g[2], g[3], g[4], g[5])), model[1])))
             cands = [(a + 1, b), (a - 1, b), (a, b + 1), (a, b - 1)]
+            if b >= 0 and path in ((), ((0, 0),)):
+                # bounds that differ by the modulus of CPython's integer hash (hash(x) == hash(x + 2**61 - 1))
+                cands += [(a, b + 2 ** 61 - 1), (a + 2 ** 61 - 1, b + 2 ** 61 - 1), (a, b + 2 ** 64)]
             if b == -1:
                 cands = [(a + 1, b), (a, len(kids)), (a, len(kids) + 1)]
             elif b == len(kids):
@@ -241,9 +244,26 @@ def edits(model):
         out.append(('drop-ctc', (model[0], rest_before + rest_after)))
         for t2 in _tree_edits(t, ops):
             out.append(('ctc-edit', (model[0], rest_before + ((cn, t2),) + rest_after)))
+        # one operand replaced by another feature of the model
+        for t2 in _operand_swaps(t, names[:6]):
+            out.append(('ctc-operand', (model[0], rest_before + ((cn, t2),) + rest_after)))
     out.append(('add-ctc', (model[0], model[1] + (('cz', ('REQUIRES', names[0], 'Qx')),))))
     assert used is not None
     return out
+
+
+def _operand_swaps(t, names):
+    if not isinstance(t, tuple):
+        for n in names:
+            if n != t:
+                yield n
+        return
+    op, left, right = t
+    for l2 in _operand_swaps(left, names):
+        yield (op, l2, right)
+    if right is not None:
+        for r2 in _operand_swaps(right, names):
+            yield (op, left, r2)
 
 
 def _tree_edits(t, ops):
